@@ -314,3 +314,32 @@ def small_shapes():
                 ops.append(B())
                 ops.append(Us)
             yield ops
+
+
+def class_chain_shapes():
+    """Chains of 2-3 directly nested classes (optionally inside a function), each class body
+    binding `a` or not, with a function-like scope (def, lambda, comprehension, parameter
+    default) or a plain class-body use at the innermost level: Python never consults an
+    enclosing class scope from a nested function or class."""
+    B = lambda: ('bind', 'a', 'assign')  # noqa: E731
+    Us = ('use', 'a')
+    inner_kinds = ['def', 'def_param_other', 'lambda', 'comp', 'default_lambda', 'default_def', 'use']
+    for outer, encl, depth in itertools.product(['none', 'before', 'after'], ['no', 'def', 'def_bind'], [2, 3]):
+        for binds in itertools.product([False, True], repeat=depth):
+            if not any(binds[:-1]):
+                continue       # some class outside the innermost one binds the name
+            for ik in inner_kinds:
+                inner = {'def': [('def', None, None, [Us])],
+                         'def_param_other': [('def', 'b', None, [Us])],
+                         'lambda': [('lambda', 'a')],
+                         'comp': [('comp', 'a', 'b')],
+                         'default_lambda': [('default_use', 'a', 'lambda')],
+                         'default_def': [('default_use', 'a', 'def')],
+                         'use': [Us]}[ik]
+                body = inner
+                for has in reversed(binds):
+                    body = [('class', ([B()] if has else []) + body)]
+                if encl != 'no':
+                    body = [('def', None, None, ([B()] if encl == 'def_bind' else []) + body)]
+                ops = ([B()] if outer == 'before' else []) + body + ([B(), Us] if outer == 'after' else [Us])
+                yield ops
